@@ -11,6 +11,7 @@ TRANSLATORS: dict[str, str] = {
     # Gen file stem -> translator module (translate/<module>.py with generate() -> str)
     "GenSkeleton": "skeleton",
     "GenLadder": "ladder",
+    "GenData": "data",
     "GenLocales": "locales",
 }
 
